@@ -25,6 +25,7 @@ import (
 	"github.com/gokrazy/rsync/internal/rsyncos"
 	"github.com/gokrazy/rsync/internal/rsyncwire"
 	"github.com/gokrazy/rsync/internal/sender"
+	"github.com/gokrazy/rsync/internal/simhook"
 )
 
 type Module struct {
@@ -348,6 +349,7 @@ func (s *Server) handleConn(ctx context.Context, conn *Conn, module *Module, pc 
 	// Computed the same way that tridge rsync does it, but the details do not
 	// matter. The goal is to have a checksum seed each time.
 	sessionChecksumSeed := int32(time.Now().Unix()) ^ (int32(os.Getpid()) << 6)
+	sessionChecksumSeed = simhook.Seed(sessionChecksumSeed)
 
 	c := &rsyncwire.Conn{
 		Reader: rd,
